@@ -26,6 +26,23 @@ PROPS = {
         "assumptions": ["index arithmetic does not overflow usize/isize (needs terms with > 2^63 binders)",
                         "hole-free terms (the property's own restriction); holes are covered by the Model B streams of C12"],
     },
+    "C02": {
+        "level": "proof",
+        "streams": ["C02"],
+        "case_ms": 5000,
+        "rule": "single steps: all terms with <= 4 nodes (thorough: + 1/6 of the 5-node terms) over all formers with 2 variables, all "
+                "two-definition groups over leaves, random redex-rich terms - `step` of the implementation must equal the model `step`, which is "
+                "proved equal to the call-by-value relation; whole programs from the type-directed generator (big integers, boundary-equal "
+                "comparisons, nested conditionals, higher-order functions, recursive and mutually recursive groups): the implementation's value "
+                "must equal the model evaluator's on the elaborated term and the independent environment/closure interpreter's on the parsed "
+                "source term. Non-trivial: a step exists / the program takes at least one step; distinct by case text. Rejected programs and "
+                "out-of-fuel programs are counted but inconclusive.",
+        "trusted_base": TB_COMMON + [
+            "modelled, not verified: src/evaluator.rs is mirrored by hand in coq/Model/Eval.v and tied to the code by the exhaustive single-step stream; num-bigint arithmetic is modelled by Z; Spec/EvalEnv.v (reference interpreter) is an executable specification, not proved equivalent to cbv",
+        ],
+        "assumptions": ["programs that exceed the step/recursion fuel or the per-case time limit are inconclusive",
+                        "stack exhaustion of the real evaluator on deep recursion is outside the model"],
+    },
 }
 
 NOT_APPLICABLE = {}
@@ -40,5 +57,16 @@ MANIFEST_TEXT = {
         "note": "Trusted: Coq kernel, extraction (ExtrOcamlBasic), OCaml driver, Rust harness glue. The model/code tie is differential "
                 "(all terms <= 3-4 nodes x parameter grid, random terms to 200 nodes), not a proof about the Rust text. usize/isize overflow excluded.",
         "technique": "Coq proof (structural induction with a nested-list induction principle) + extracted-model differential testing",
+    },
+    "C02": {
+        "text": "`step` of the evaluator model is proved to be exactly the call-by-value small-step relation given by evaluation contexts "
+                "and redex rules (step_iff_cbv), deterministic, with exact Z arithmetic and truncating division; recursive and mutually "
+                "recursive groups are run inside Coq. The model is tied to src/evaluator.rs by comparing single steps on all small terms "
+                "and values of generated programs, which are also compared with an independent environment-based interpreter run on the "
+                "parsed source.",
+        "design_ref": "DESIGN.md section 4, C02",
+        "note": "Trusted: Coq kernel, extraction, OCaml driver, Rust harness. The model/code tie is differential. The reference "
+                "interpreter is an executable spec (not proved equivalent to cbv). BigInt is modelled by Z.",
+        "technique": "Coq proof that the evaluator model equals an evaluation-context CBV semantics + exhaustive single-step differential testing + 3-way program evaluation",
     },
 }
